@@ -50,7 +50,7 @@ func cmdRun(args []string) int {
 	fs := flag.NewFlagSet("run", flag.ExitOnError)
 	h := fs.String("h", "", "harness relpkg:Func")
 	fl := fs.String("float", "real", "float encoding: real|fp")
-	mo := fs.String("maporder", "all", "map iteration: all|insertion")
+	mo := fs.String("maporder", "all", "map iteration: all|repo|insertion")
 	j := fs.Int("j", 16, "workers")
 	maxPaths := fs.Int("maxpaths", 2_000_000, "path budget")
 	maxSteps := fs.Int("maxsteps", 5_000_000, "step budget per path")
@@ -84,7 +84,7 @@ func cmdRun(args []string) int {
 		fmt.Fprintln(os.Stderr, err)
 		return 2
 	}
-	cfg := &RunConfig{Harness: *h, Fn: fn, MaxSteps: *maxSteps, MaxDepth: 400, MaxPaths: *maxPaths, MapOrderAll: *mo == "all",
+	cfg := &RunConfig{Harness: *h, Fn: fn, MaxSteps: *maxSteps, MaxDepth: 400, MaxPaths: *maxPaths, MapOrderAll: *mo != "insertion", MapOrderRepoOnly: *mo == "repo",
 		Twin: *twin, CrossCheckEvery: *x, Bounds: bounds, BoundsSeen: map[string]int{}, TimeoutMs: *timeout, Workers: *j, PanicOK: *panicOK, RenderMax: *renderMax, ConcreteFmt: *concFmt}
 	if *x > 0 {
 		cfg.XSolvers = []SolverKind{KZ3New, KCVC5}
